@@ -4,8 +4,10 @@ heap; one step = one Python statement run by one context), for ALL programs, ALL
 contexts and ALL interleavings (the interleaved step list is universally quantified).
 
 What is proved: non-interference from the confinement premise, preservation of the premise by every
-step, the premise for worlds built by NewContext from a registry with immutable Globals, and that
-the premise is what the Go heap walk checks (`Disjoint`).  What cannot be proved here (the Go memory
+step, the premise for worlds built by NewContext (any ContextOpts) from a registry whose Globals are
+immutable values or lists / dicts of immutable values (which NewModule copies) – in particular the tree's
+registry, with no exclusion (`isolation`) –, and that the premise is what the Go heap walk checks
+(`DisjointR`: roots = every context's store and every registered implementation's Globals).  What cannot be proved here (the Go memory
 model: data races inside one statement) is covered by the race-detector runs only.
 -/
 import GPy.C08.Proofs
@@ -106,10 +108,35 @@ theorem confined_disjoint {w : World} (hc : Confined w) : Disjoint w := by
 theorem disjoint_preserved {w : World} (hc : Confined w) (steps : List (Nat × Op)) : Disjoint (runSteps w steps).1 :=
   confined_disjoint (confined_run steps hc)
 
-/-! ### NewContext -/
+/-! ### the walk's second kind of root: the registry -/
 
-/-- every registered implementation has immutable Globals -/
+/-- every registered implementation has Globals that NewModule turns into values a context may hold:
+immutable values, or (with the NewModule of the tree) lists / dicts of immutable values, which it copies -/
+def RegOK (w : World) : Prop := ∀ impl ∈ w.registry, ∀ kv ∈ impl.globals, okGlobal w kv.2
+
+/-- every registered implementation has immutable Globals (the premise of the first round; it implies `RegOK`) -/
 def RegImmutable (w : World) : Prop := ∀ impl ∈ w.registry, ∀ kv ∈ impl.globals, okShared w kv.2
+
+theorem regImmutable_regOK {w : World} (h : RegImmutable w) : RegOK w := by
+  intro impl hi kv hkv
+  have := h impl hi kv hkv
+  cases hv : kv.2 with
+  | ref r => rw [hv] at this; exact Or.inl this
+  | int _ => trivial
+  | str _ => trivial
+  | flt _ => trivial
+  | none => trivial
+
+theorem regOK_applyEffs {c : Nat} : ∀ {effs : List Eff} {w : World}, RegOK w → (∀ e ∈ effs, EffLocal c e) →
+    RegOK (applyEffs c w effs)
+  | [], _, h, _ => h
+  | e :: rest, w, h, hl => by
+    unfold applyEffs
+    simp only [List.foldl_cons]
+    refine regOK_applyEffs (effs := rest) ?_ (fun e' he' => hl e' (List.mem_cons_of_mem _ he'))
+    intro impl hi kv hkv
+    rw [registry_applyEff] at hi
+    exact (okGlobal_applyEff (hl e List.mem_cons_self)).mpr (h impl hi kv hkv)
 
 theorem regImmutable_applyEffs {c : Nat} : ∀ {effs : List Eff} {w : World}, RegImmutable w → (∀ e ∈ effs, EffLocal c e) →
     RegImmutable (applyEffs c w effs)
@@ -122,6 +149,49 @@ theorem regImmutable_applyEffs {c : Nat} : ∀ {effs : List Eff} {w : World}, Re
     rw [registry_applyEff] at hi
     exact (okShared_applyEff (hl e List.mem_cons_self)).mpr (h impl hi kv hkv)
 
+/-- `RegOK` is preserved by every statement of every context … -/
+theorem regOK_step {w : World} (hc : Confined w) (hr : RegOK w) (c : Nat) (op : Op) : RegOK (step w c op).world := by
+  unfold step
+  exact regOK_applyEffs hr (fun e he => (plan_ok hc op e he).local)
+
+/-- … hence by every run -/
+theorem regOK_run : ∀ (steps : List (Nat × Op)) {w : World}, Confined w → RegOK w → RegOK (runSteps w steps).1
+  | [], _, _, hr => hr
+  | (c, op) :: rest, w, hc, hr => by
+    simp only [runSteps]
+    exact regOK_run rest (confined_step hc c op) (regOK_step hc hr c op)
+
+/-- what is reachable from the registry is process-wide, and either frozen or a container of immutable values -/
+theorem regReach_shared {w : World} (hc : Confined w) (hr : RegOK w) {r : Ref} (h : RegReach w r) : okGlobal w (.ref r) := by
+  induction h with
+  | root hi hkv hv =>
+    have := hr _ hi _ hkv
+    rw [hv] at this; exact this
+  | @step r0 r1 o _ ho hv ih =>
+    rcases ih with ⟨hown, o', ho', hf⟩ | ⟨_, hown, o', ho', _, _, hx⟩
+    · rw [ho] at ho'; cases ho'
+      have hr0 : r0 = ⟨.shared, r0.idx⟩ := by
+        cases r0; simp only [Ref.mk.injEq, and_true]; exact hown
+      rw [hr0] at ho
+      exact Or.inl (hc.shared _ o ho hf _ hv)
+    · rw [ho] at ho'; cases ho'
+      exact Or.inl (hx _ hv)
+
+/-- **The walk's premise, complete.**  In a confined world over an acceptable registry no writable object is
+reachable from two contexts, nor from a context and the Globals of a registered implementation. -/
+theorem confined_disjointR {w : World} (hc : Confined w) (hr : RegOK w) : DisjointR w := by
+  refine ⟨confined_disjoint hc, ?_⟩
+  intro a r ha hreg
+  rcases reach_owner hc ha with h1 | ⟨_, hf⟩
+  · rcases regReach_shared hc hr hreg with ⟨h2, _⟩ | ⟨_, h2, _⟩ <;> (rw [h1] at h2; cases h2)
+  · exact hf
+
+theorem disjointR_preserved {w : World} (hc : Confined w) (hr : RegOK w) (steps : List (Nat × Op)) :
+    DisjointR (runSteps w steps).1 :=
+  confined_disjointR (confined_run steps hc) (regOK_run steps hc hr)
+
+/-! ### NewContext, step by step -/
+
 theorem isSome_applyEffs {c : Nat} : ∀ {effs : List Eff} {w : World}, (w.stores c).isSome → ((applyEffs c w effs).stores c).isSome
   | [], _, h => h
   | e :: rest, w, h => by
@@ -131,106 +201,99 @@ theorem isSome_applyEffs {c : Nat} : ∀ {effs : List Eff} {w : World}, (w.store
 
 /-- ModuleInit of a registered implementation keeps the invariant -/
 theorem confined_newModule {w : World} {c : Nat} {impl : Impl} (hc : Confined w) (hs : (w.stores c).isSome)
-    (hg : ∀ kv ∈ impl.globals, okShared w kv.2) : Confined (applyEffs c w (newModuleEffs w c impl).2) :=
+    (hg : ∀ kv ∈ impl.globals, okGlobal w kv.2) : Confined (applyEffs c w (newModuleEffs w c impl).2) :=
   confined_applyEffs hc (newModuleEffs_ok hs hg).2
 
-/-- **NewContext.**  From a confined world whose registered implementations have immutable Globals,
-`stdlib.NewContext` (new store, builtins and sys instantiated, fresh argv/path lists, a `__main__`
-module) yields a confined world. -/
-theorem newcontext_confined {w : World} (hc : Confined w) (hr : RegImmutable w) (c : Nat) (argv path : List String) :
-    Confined (newContext w c argv path) ∧ RegImmutable (newContext w c argv path) := by
-  -- the fresh, empty store
-  let w1 : World := { w with stores := fun c' => if c' = c then some {} else w.stores c' }
-  have hc1 : Confined w1 := by
-    refine ⟨?_, hc.own, hc.shared, ?_⟩
-    · intro c' s hs r hr'
-      by_cases hcc : c' = c
-      · subst hcc; simp [w1] at hs; subst hs; simp [Store.roots] at hr'
-      · simp [w1, hcc] at hs; exact hc.store c' s hs r hr'
-    · intro c' s impl hs hi hlk kv hkv
-      by_cases hcc : c' = c
-      · exact hr impl hi kv hkv
-      · simp [w1, hcc] at hs; exact hc.impls c' s impl hs hi hlk kv hkv
-  have hr1 : RegImmutable w1 := hr
-  have hs1 : (w1.stores c).isSome := by simp [w1]
-  -- Import(name): ModuleInit of the registered implementation
-  have himp : ∀ (w : World) (name : String), Confined w → RegImmutable w → (w.stores c).isSome →
-      let w' := (match findImpl w.registry name with
-        | some impl => applyEffs c w (newModuleEffs w c impl).2
-        | Option.none => w)
-      Confined w' ∧ RegImmutable w' ∧ (w'.stores c).isSome := by
-    intro w name hcw hrw hsw
-    cases hf : findImpl w.registry name with
-    | none => exact ⟨hcw, hrw, hsw⟩
-    | some impl =>
-      have hg := hrw impl (findImpl_some hf).1
-      have hok := newModuleEffs_ok (c := c) hsw hg
-      exact ⟨confined_applyEffs hcw hok.2, regImmutable_applyEffs hrw (fun e he => (hok.2 e he).local), isSome_applyEffs hsw⟩
-  obtain ⟨hc2, hr2, hs2⟩ := himp w1 "builtins" hc1 hr1 hs1
-  generalize hw2 : (match findImpl w1.registry "builtins" with
-        | some impl => applyEffs c w1 (newModuleEffs w1 c impl).2
-        | Option.none => w1) = w2 at hc2 hr2 hs2
-  obtain ⟨hc3, hr3, hs3⟩ := himp w2 "sys" hc2 hr2 hs2
-  generalize hw3 : (match findImpl w2.registry "sys" with
-        | some impl => applyEffs c w2 (newModuleEffs w2 c impl).2
-        | Option.none => w2) = w3 at hc3 hr3 hs3
-  -- fresh sys.argv / sys.path
-  have hsys : ∀ (w : World), Confined w → RegImmutable w → (w.stores c).isSome →
-      let w' := (match (w.stores c).bind (fun s => s.modules.lookup "sys") with
-        | some sysr =>
-          match w.heap sysr with
-          | some so =>
-            applyEffs c w [.put (freshRef w c 0) (strList argv), .put (freshRef w c 1) (strList path), .bump 2,
-              .put sysr { so with fields := setField "path" (.ref (freshRef w c 1)) (setField "argv" (.ref (freshRef w c 0)) so.fields) }]
-          | Option.none => w
-        | Option.none => w)
-      Confined w' ∧ RegImmutable w' ∧ (w'.stores c).isSome := by
-    intro w hcw hrw hsw
-    dsimp only
+/-- what every step of NewContext maintains -/
+def NCInv (c : Nat) (w : World) : Prop := Confined w ∧ RegOK w ∧ (w.stores c).isSome
+
+/-- step 1: the fresh, empty store -/
+theorem ncStore_inv {w : World} (hc : Confined w) (hr : RegOK w) (c : Nat) : NCInv c (ncStore c w) := by
+  refine ⟨⟨?_, hc.own, hc.shared, ?_⟩, hr, by simp [ncStore]⟩
+  · intro c' s hs r hr'
+    by_cases hcc : c' = c
+    · subst hcc; simp [ncStore] at hs; subst hs; simp [Store.roots] at hr'
+    · simp [ncStore, hcc] at hs; exact hc.store c' s hs r hr'
+  · intro c' s impl hs hi hlk kv hkv
+    by_cases hcc : c' = c
+    · exact hr impl hi kv hkv
+    · simp [ncStore, hcc] at hs; exact hc.impls c' s impl hs hi hlk kv hkv
+
+/-- steps 2, 3: Import(name) = ModuleInit of the registered implementation -/
+theorem ncImport_inv {w : World} {c : Nat} (h : NCInv c w) (name : String) : NCInv c (ncImport c name w) := by
+  obtain ⟨hcw, hrw, hsw⟩ := h
+  unfold ncImport
+  cases hf : findImpl w.registry name with
+  | none => exact ⟨hcw, hrw, hsw⟩
+  | some impl =>
+    have hg := hrw impl (findImpl_some hf).1
+    have hok := newModuleEffs_ok (c := c) hsw hg
+    exact ⟨confined_applyEffs hcw hok.2, regOK_applyEffs hrw (fun e he => (hok.2 e he).local), isSome_applyEffs hsw⟩
+
+/-- steps 4, 5: `sys_mod.Globals[attr] = NewListFromStrings(ss)` -/
+theorem ncReplace_inv {w : World} {c : Nat} (h : NCInv c w) (attr : String) (ss : List String) :
+    NCInv c (ncReplace c attr ss w) := by
+  obtain ⟨hcw, hrw, hsw⟩ := h
+  unfold ncReplace
+  split
+  next sysr hb =>
     split
-    next sysr hb =>
-      split
-      next so hso =>
-        obtain ⟨s, hs, hl⟩ := Option.bind_eq_some_iff.mp hb
-        have hown : sysr.owner = .ctx c := hcw.store c s hs sysr (mem_roots_of_module (lookup_mem hl))
-        have hscal : ∀ (ss : List String), ∀ v ∈ (strList ss).vals, okVal w c v := by
-          intro ss v hv
-          simp [strList, Obj.vals] at hv
-          obtain ⟨x, _, rfl⟩ := hv
-          trivial
-        have hok : ∀ e ∈ [Eff.put (freshRef w c 0) (strList argv), .put (freshRef w c 1) (strList path), .bump 2,
-              .put sysr { so with fields := setField "path" (.ref (freshRef w c 1)) (setField "argv" (.ref (freshRef w c 0)) so.fields) }],
-              EffOK w c e := by
-          intro e he
-          simp at he
-          rcases he with rfl | rfl | rfl | rfl
-          · exact ⟨rfl, hscal argv⟩
-          · exact ⟨rfl, hscal path⟩
-          · trivial
-          · refine ⟨hown, ?_⟩
-            have h1 := vals_setField (o := so) (k := "argv") (v := .ref (freshRef w c 0)) (P := okVal w c)
-              (fun x hx => okVal_child hcw (Or.inl hown) hso hx) (Or.inl rfl)
-            exact vals_setField (o := { so with fields := setField "argv" (.ref (freshRef w c 0)) so.fields })
-              (k := "path") (v := .ref (freshRef w c 1)) (P := okVal w c) h1 (Or.inl rfl)
-        exact ⟨confined_applyEffs hcw hok, regImmutable_applyEffs hrw (fun e he => (hok e he).local), isSome_applyEffs hsw⟩
-      next => exact ⟨hcw, hrw, hsw⟩
+    next so hso =>
+      obtain ⟨s, hs, hl⟩ := Option.bind_eq_some_iff.mp hb
+      have hown : sysr.owner = .ctx c := hcw.store c s hs sysr (mem_roots_of_module (lookup_mem hl))
+      have hscal : ∀ v ∈ (strList ss).vals, okVal w c v := by
+        intro v hv
+        simp [strList, Obj.vals] at hv
+        obtain ⟨x, _, rfl⟩ := hv
+        trivial
+      have hok : ∀ e ∈ [Eff.put (freshRef w c 0) (strList ss), .bump 1,
+            .put sysr { so with fields := setField attr (.ref (freshRef w c 0)) so.fields }], EffOK w c e := by
+        intro e he
+        simp at he
+        rcases he with rfl | rfl | rfl
+        · exact ⟨rfl, hscal⟩
+        · trivial
+        · exact ⟨hown, vals_setField (o := so) (k := attr) (v := .ref (freshRef w c 0)) (P := okVal w c)
+            (fun x hx => okVal_child hcw (Or.inl hown) hso hx) (Or.inl rfl)⟩
+      exact ⟨confined_applyEffs hcw hok, regOK_applyEffs hrw (fun e he => (hok e he).local), isSome_applyEffs hsw⟩
     next => exact ⟨hcw, hrw, hsw⟩
-  obtain ⟨hc4, hr4, hs4⟩ := hsys w3 hc3 hr3 hs3
-  generalize hw4 : (match (w3.stores c).bind (fun s => s.modules.lookup "sys") with
-        | some sysr =>
-          match w3.heap sysr with
-          | some so =>
-            applyEffs c w3 [.put (freshRef w3 c 0) (strList argv), .put (freshRef w3 c 1) (strList path), .bump 2,
-              .put sysr { so with fields := setField "path" (.ref (freshRef w3 c 1)) (setField "argv" (.ref (freshRef w3 c 0)) so.fields) }]
-          | Option.none => w3
-        | Option.none => w3) = w4 at hc4 hr4 hs4
-  -- the __main__ module
-  have hok := newModuleEffs_ok (w := w4) (c := c) (impl := { name := "", globals := [], methods := [] }) hs4 (by simp)
-  have hfin : newContext w c argv path = applyEffs c w4 (newModuleEffs w4 c { name := "", globals := [], methods := [] }).2 := by
-    subst hw4; subst hw3; subst hw2
-    rfl
-  rw [hfin]
-  exact ⟨confined_applyEffs hc4 hok.2, regImmutable_applyEffs hr4 (fun e he => (hok.2 e he).local)⟩
+  next => exact ⟨hcw, hrw, hsw⟩
+
+/-- step 6: the `__main__` module -/
+theorem ncMain_inv {w : World} {c : Nat} (h : NCInv c w) : NCInv c (ncMain c w) := by
+  obtain ⟨hcw, hrw, hsw⟩ := h
+  have hok := newModuleEffs_ok (w := w) (c := c) (impl := { name := "", globals := [], methods := [] }) hsw (by simp)
+  exact ⟨confined_applyEffs hcw hok.2, regOK_applyEffs hrw (fun e he => (hok.2 e he).local), isSome_applyEffs hsw⟩
+
+/-- **NewContext, any variant.**  With the NewModule of the tree or with the old one, and whether or not the
+two replacement steps are performed: over an acceptable registry the result is confined.  (With the old
+NewModule, `shallowGlobals = true`, `RegOK` demands immutable Globals, which the `sys` implementation
+does not have: there the replacement steps are what makes the contexts disjoint – `sys_replace_needed_witness`.) -/
+theorem newcontextG_confined {w : World} (hc : Confined w) (hr : RegOK w) (ra rp : Bool) (c : Nat) (argv path : List String) :
+    Confined (newContextG ra rp w c argv path) ∧ RegOK (newContextG ra rp w c argv path) := by
+  have h3 := ncImport_inv (ncImport_inv (ncStore_inv hc hr c) "builtins") "sys"
+  have h4 : NCInv c (if ra then ncReplace c "argv" argv (ncImport c "sys" (ncImport c "builtins" (ncStore c w)))
+      else ncImport c "sys" (ncImport c "builtins" (ncStore c w))) := by
+    cases ra
+    · exact h3
+    · exact ncReplace_inv h3 "argv" argv
+  have h5 : NCInv c (if rp then ncReplace c "path" path (if ra then ncReplace c "argv" argv (ncImport c "sys" (ncImport c "builtins" (ncStore c w)))
+      else ncImport c "sys" (ncImport c "builtins" (ncStore c w)))
+      else (if ra then ncReplace c "argv" argv (ncImport c "sys" (ncImport c "builtins" (ncStore c w)))
+      else ncImport c "sys" (ncImport c "builtins" (ncStore c w)))) := by
+    cases rp
+    · exact h4
+    · exact ncReplace_inv h4 "path" path
+  have h6 := ncMain_inv h5
+  exact ⟨h6.1, h6.2.1⟩
+
+/-- **NewContext.**  From a confined world over an acceptable registry – in the tree: immutable Globals, or
+lists / dicts of immutable values such as the `sys` implementation's own `path` / `argv` lists and
+`os.environ` – `stdlib.NewContext` (new store, builtins and sys instantiated, fresh argv/path lists, a
+`__main__` module) yields a confined world. -/
+theorem newcontext_confined {w : World} (hc : Confined w) (hr : RegOK w) (c : Nat) (argv path : List String) :
+    Confined (newContext w c argv path) ∧ RegOK (newContext w c argv path) :=
+  newcontextG_confined hc hr true true c argv path
 
 /-- a world without contexts, whose frozen process-wide objects refer to frozen process-wide objects
 only, is confined (base case of building a world) -/
@@ -241,40 +304,40 @@ theorem confined_initial {w : World} (hs : ∀ c, w.stores c = Option.none) (hh 
   · intro c i o h; rw [hh c i] at h; cases h
   · intro c s impl h; rw [hs c] at h; cases h
 
-/-- **newcontext_disjoint.**  Any number of contexts created by NewContext from a registry whose
-implementation Globals hold only immutable values form a disjoint world, and stay disjoint under
-every interleaved run. -/
-theorem newcontext_disjoint {w : World} (hc : Confined w) (hr : RegImmutable w) :
-    ∀ (ctxs : List (Nat × List String × List String)) (steps : List (Nat × Op)),
-      Disjoint (runSteps (ctxs.foldl (fun w x => newContext w x.1 x.2.1 x.2.2) w) steps).1
-  | [], steps => disjoint_preserved hc steps
-  | x :: rest, steps => by
-    simp only [List.foldl_cons]
-    have h := newcontext_confined hc hr x.1 x.2.1 x.2.2
-    exact newcontext_disjoint h.1 h.2 rest steps
+abbrev CtxSpec := Nat × List String × List String   -- (context id, SysArgs, SysPaths)
 
-/-- **isolation (partial).**  Contexts created by NewContext from a registry with immutable Globals
-are isolated from each other under every interleaving.
-EXCLUDED (hypothesis `RegImmutable`): registries with a writable value in an implementation's Globals –
-in the tree `os.environ` (known finding C08-K01, `isolation_witness` below) and the `sys`
-implementation's own `path`/`argv` lists, which NewContext replaces before any statement runs (that
-they are unreachable afterwards is checked by the heap walk on the implementation, not proved here). -/
-theorem isolation_partial {w : World} (hc : Confined w) (hr : RegImmutable w)
-    (ctxs : List (Nat × List String × List String)) (a : Nat) (steps : List (Nat × Op)) :
+def newContexts (w : World) (ctxs : List CtxSpec) : World := ctxs.foldl (fun w x => newContext w x.1 x.2.1 x.2.2) w
+
+theorem newcontexts_confined : ∀ (ctxs : List CtxSpec) {w : World}, Confined w → RegOK w →
+    Confined (newContexts w ctxs) ∧ RegOK (newContexts w ctxs)
+  | [], _, hc, hr => ⟨hc, hr⟩
+  | x :: rest, w, hc, hr => by
+    simp only [newContexts, List.foldl_cons]
+    have h := newcontext_confined hc hr x.1 x.2.1 x.2.2
+    exact newcontexts_confined rest h.1 h.2
+
+/-- **newcontext_disjoint.**  Any number of contexts created by NewContext – with ANY SysArgs / SysPaths,
+empty ones included – over an acceptable registry form a world in which no writable object is reachable
+from two contexts or from a context and the registry, and stay so under every interleaved run. -/
+theorem newcontext_disjoint {w : World} (hc : Confined w) (hr : RegOK w)
+    (ctxs : List CtxSpec) (steps : List (Nat × Op)) :
+    DisjointR (runSteps (ctxs.foldl (fun w x => newContext w x.1 x.2.1 x.2.2) w) steps).1 :=
+  have h := newcontexts_confined ctxs hc hr
+  disjointR_preserved h.1 h.2 steps
+
+/-- **isolation (partial).**  Contexts created by NewContext over an acceptable registry are isolated from
+each other under every interleaving.
+EXCLUDED (hypothesis `RegOK`): registries in which an implementation's Globals hold a writable object other
+than a list / dict of immutable values – a list inside a list, a module, a heap type, an instance:
+`instanceGlobals` copies one level of containers.  No implementation of the tree is excluded
+(`isolation`); the first round's exclusions, `os.environ` (C08-K01) and the `sys` implementation's own
+`path`/`argv` lists, are now inside the theorem. -/
+theorem isolation_partial {w : World} (hc : Confined w) (hr : RegOK w)
+    (ctxs : List CtxSpec) (a : Nat) (steps : List (Nat × Op)) :
     let w' := ctxs.foldl (fun w x => newContext w x.1 x.2.1 x.2.2) w
     traceOf a (runSteps w' steps).2 = soloTrace w' a steps := by
   intro w'
-  have : ∀ (ctxs : List (Nat × List String × List String)) (w : World), Confined w → RegImmutable w →
-      Confined (ctxs.foldl (fun w x => newContext w x.1 x.2.1 x.2.2) w) := by
-    intro ctxs
-    induction ctxs with
-    | nil => intro w hc _; exact hc
-    | cons x rest ih =>
-      intro w hc hr
-      simp only [List.foldl_cons]
-      have h := newcontext_confined hc hr x.1 x.2.1 x.2.2
-      exact ih _ h.1 h.2
-  exact noninterference (this ctxs w hc hr) a steps
+  exact noninterference (newcontexts_confined ctxs hc hr).1 a steps
 
 /-! ### non-vacuity -/
 
@@ -286,22 +349,26 @@ def okRegistry : List Impl := [
 
 def okBase : World := { baseWorld with registry := okRegistry }
 
-theorem frozen_shr (i : Nat) (h : i = 0 ∨ i = 2 ∨ i = 3 ∨ i = 5) : sharedFrozen okBase (shr i) := by
+theorem frozen_shr (i : Nat) (h : i = 0 ∨ i = 1 ∨ i = 2 ∨ i = 3 ∨ i = 5) : sharedFrozen baseWorld (shr i) := by
   refine ⟨rfl, ?_⟩
-  rcases h with rfl | rfl | rfl | rfl <;> exact ⟨_, rfl, rfl⟩
+  rcases h with rfl | rfl | rfl | rfl | rfl <;> exact ⟨_, rfl, rfl⟩
+
+/-- the process-wide heap the harness sets up: frozen objects refer to frozen objects only -/
+theorem baseHeap_shared (i : Nat) (o : Obj) (ho : baseHeap ⟨.shared, i⟩ = some o) (hf : o.frozen = true) :
+    ∀ v ∈ o.vals, okShared baseWorld v := by
+  intro v hv
+  simp only [baseHeap] at ho
+  simp at ho
+  split at ho <;> try cases ho
+  all_goals first
+    | (simp [Obj.vals] at hv; rcases hv with rfl | rfl <;> trivial)
+    | (simp [Obj.vals] at hv; done)
+    | (cases hf)
 
 /-- the hypotheses of `isolation_partial` / `newcontext_disjoint` are satisfiable: `okBase` -/
 theorem okBase_confined : Confined okBase ∧ RegImmutable okBase := by
   constructor
-  · refine confined_initial (fun _ => rfl) (fun _ _ => rfl) ?_
-    intro i o ho hf v hv
-    simp only [okBase, baseWorld, baseHeap] at ho
-    simp at ho
-    split at ho <;> try cases ho
-    all_goals first
-      | (simp [Obj.vals] at hv; rcases hv with rfl | rfl <;> trivial)
-      | (simp [Obj.vals] at hv; done)
-      | (cases hf)
+  · exact confined_initial (fun _ => rfl) (fun _ _ => rfl) baseHeap_shared
   · intro impl hi kv hkv
     simp [okBase, okRegistry] at hi
     rcases hi with rfl | rfl | rfl <;> simp at hkv
@@ -313,6 +380,62 @@ theorem okBase_confined : Confined okBase ∧ RegImmutable okBase := by
       · trivial
       · exact frozen_shr 5 (by simp)
 
+/-- a process-wide list / dict of immutable values, as `instanceGlobals` copies it -/
+theorem container_shr (i : Nat) (h : i = 4 ∨ i = 6 ∨ i = 7 ∨ i = 8 ∨ i = 9 ∨ i = 10 ∨ i = 11) : okGlobal baseWorld (.ref (shr i)) := by
+  refine Or.inr ⟨rfl, rfl, ?_⟩
+  rcases h with rfl | rfl | rfl | rfl | rfl | rfl | rfl
+  all_goals refine ⟨_, rfl, rfl, rfl, ?_⟩
+  all_goals (intro x hx; simp [Obj.vals] at hx)
+  all_goals first
+    | done
+    | (rcases hx with rfl | rfl <;> trivial)
+    | (subst hx; trivial)
+
+/-- **The registry of the tree is acceptable**: `builtins`, `sys` (with its own mutable `path` / `argv`
+lists), `os` (with `os.environ`), `math`, `string`, `time` and the two harness modules. -/
+theorem stdBase_ok : Confined baseWorld ∧ RegOK baseWorld := by
+  constructor
+  · exact confined_initial (fun _ => rfl) (fun _ _ => rfl) baseHeap_shared
+  · intro impl hi kv hkv
+    simp [baseWorld, stdRegistry] at hi
+    rcases hi with rfl | rfl | rfl | rfl | rfl | rfl | rfl | rfl <;> simp at hkv
+    · rcases hkv with rfl | rfl | rfl
+      · exact Or.inl (frozen_shr 0 (by simp))
+      · exact Or.inl (frozen_shr 1 (by simp))
+      · exact Or.inl (frozen_shr 2 (by simp))
+    · rcases hkv with rfl | rfl | rfl
+      · exact Or.inl (frozen_shr 3 (by simp))
+      · exact container_shr 6 (by simp)
+      · exact container_shr 7 (by simp)
+    · rcases hkv with rfl | rfl
+      · exact container_shr 4 (by simp)
+      · trivial
+    · subst hkv; trivial
+    · subst hkv; trivial
+    · rcases hkv with rfl | rfl | rfl | rfl | rfl
+      · trivial
+      · trivial
+      · exact Or.inl (frozen_shr 5 (by simp))
+      · exact container_shr 8 (by simp)
+      · exact container_shr 9 (by simp)
+    · rcases hkv with rfl | rfl | rfl
+      · trivial
+      · exact container_shr 10 (by simp)
+      · exact container_shr 11 (by simp)
+
+/-- **Isolation, for the tree.**  Any number of contexts created by `NewContext` with ANY SysArgs / SysPaths
+(empty ones included) over the tree's registry: whatever programs the other contexts run and however the
+statements interleave, every context observes exactly what it observes alone.  No exclusion is left:
+`os.environ` (C08-K01, fixed by d8887ef) and the `sys` implementation's own `path` / `argv` are covered. -/
+theorem isolation (ctxs : List CtxSpec) (a : Nat) (steps : List (Nat × Op)) :
+    traceOf a (runSteps (newContexts baseWorld ctxs) steps).2 = soloTrace (newContexts baseWorld ctxs) a steps :=
+  isolation_partial stdBase_ok.1 stdBase_ok.2 ctxs a steps
+
+/-- … and after every run no writable object is reachable from two contexts or from a context and the registry -/
+theorem newcontext_disjoint_std (ctxs : List CtxSpec) (steps : List (Nat × Op)) :
+    DisjointR (runSteps (newContexts baseWorld ctxs) steps).1 :=
+  newcontext_disjoint stdBase_ok.1 stdBase_ok.2 ctxs steps
+
 /-- non-vacuity of `noninterference`: two contexts over `okBase`, context 0 rebinds `len` in its
 builtins and appends to its sys.path, context 1 looks at both: the interleaved traces are computed
 and context 1 sees its own, untouched state. -/
@@ -321,31 +444,52 @@ def demoSteps : List (Nat × Op) := [
   (0, .setAttr (P "builtins") "len" (.int 5)), (0, .append (P "sys" [.attr "path"]) (.str "/leak")),
   (1, .obs (P "len")), (1, .obs (P "sys" [.attr "path"])), (0, .obs (P "len")), (0, .obs (P "sys" [.attr "path"]))]
 
-def demoWorld : World := [(0, ["c8", "0"], ["/p0"]), (1, ["c8", "1"], ["/p1"])].foldl (fun w (x : Nat × List String × List String) => newContext w x.1 x.2.1 x.2.2) okBase
+def demoWorld : World := [(0, ["c8", "0"], ["/p0"]), (1, ["c8", "1"], ["/p1"])].foldl (fun w (x : CtxSpec) => newContext w x.1 x.2.1 x.2.2) okBase
 
 example : traceOf 1 (runSteps demoWorld demoSteps).2 = ["ok", "<fn len>", "['/p1']"] := by decide
 example : traceOf 0 (runSteps demoWorld demoSteps).2 = ["ok", "ok", "ok", "ok", "5", "['/p0','/leak']"] := by decide
 example : traceOf 1 (runSteps demoWorld demoSteps).2 = soloTrace demoWorld 1 demoSteps :=
-  isolation_partial okBase_confined.1 okBase_confined.2 _ 1 demoSteps
+  isolation_partial okBase_confined.1 (regImmutable_regOK okBase_confined.2) _ 1 demoSteps
+
+/-- non-vacuity of `isolation`: two contexts created WITHOUT SysArgs / SysPaths over the tree's registry;
+context 0 appends to sys.path and stores into os.environ, context 1 sees its own empty ones -/
+def bareSteps : List (Nat × Op) := [
+  (0, .imp "sys"), (1, .imp "sys"), (0, .imp "os"), (1, .imp "os"),
+  (0, .append (P "sys" [.attr "path"]) (.str "/leak")), (0, .setKey (P "os" [.attr "environ"]) "ZK" (.str "v0")),
+  (1, .obs (P "sys" [.attr "path"])), (1, .obs (P "os" [.attr "environ"])), (0, .obs (P "sys" [.attr "path"]))]
+
+example : traceOf 1 (runSteps (newContexts baseWorld [(0, [], []), (1, [], [])]) bareSteps).2 = ["ok", "ok", "[]", "{}"] := by decide
+example : traceOf 0 (runSteps (newContexts baseWorld [(0, [], []), (1, [], [])]) bareSteps).2 = ["ok", "ok", "ok", "ok", "['/leak']"] := by decide
 
 /-! ### witnesses: where the premise fails, isolation fails -/
+
+/-- the process before fix d8887ef: NewModule = `Globals: impl.Globals.Copy()` -/
+def legacyBase : World := { baseWorld with shallowGlobals := true }
+
+def legacyWorld (n : Nat) : World :=
+  (List.range n).foldl (fun w c => newContext w c ["c8", toString c] ["/p" ++ toString c]) legacyBase
 
 def leakSteps : List (Nat × Op) := [
   (0, .imp "os"), (1, .imp "os"),
   (0, .setKey (P "os" [.attr "environ"]) "ZK" (.str "v0")),
   (1, .obs (P "os" [.attr "environ", .key "ZK"]))]
 
-/-- **C08-K01 witness.**  With the tree's registry (`os.environ` is ONE dict per process and
-NewModule copies Globals one level deep) context 1 sees what context 0 stored: its interleaved trace
-differs from its solo trace. -/
+/-- **C08-K01 witness (the code before fix d8887ef).**  With the tree's registry (`os.environ` is ONE dict
+per process) and a NewModule that copies Globals one level deep, context 1 sees what context 0
+stored: its interleaved trace differs from its solo trace. -/
 theorem isolation_witness :
-    traceOf 1 (runSteps (stdWorld 2) leakSteps).2 = ["ok", "'v0'"] ∧
-    soloTrace (stdWorld 2) 1 leakSteps = ["ok", "E:KeyError"] := by decide
+    traceOf 1 (runSteps (legacyWorld 2) leakSteps).2 = ["ok", "'v0'"] ∧
+    soloTrace (legacyWorld 2) 1 leakSteps = ["ok", "E:KeyError"] := by decide
 
 /-- … and the heap walk of the model reports the shared dict -/
-theorem walk_witness : walkResult (runSteps (stdWorld 2) leakSteps).1 2 = ("shared", "os.environ") := by decide
+theorem walk_witness : walkResult (runSteps (legacyWorld 2) leakSteps).1 2 = ("shared", "os.environ") := by decide
 
-/-- the registry of the tree violates the premise of `isolation_partial` exactly there -/
+/-- with the NewModule of the tree the same scenario is isolated (an instance of `isolation`, computed) -/
+theorem isolation_fixed :
+    traceOf 1 (runSteps (stdWorld 2) leakSteps).2 = ["ok", "E:KeyError"] ∧
+    walkResult (runSteps (stdWorld 2) leakSteps).1 2 = ("disjoint", "") := by decide
+
+/-- the registry of the tree does not have immutable Globals (the first round's premise fails) … -/
 theorem regImmutable_std_witness : ¬ RegImmutable baseWorld := by
   intro h
   have := h { name := "os", globals := [("environ", .ref (shr 4)), ("sep", .str "/")], methods := ["getcwd"] }
@@ -354,6 +498,121 @@ theorem regImmutable_std_witness : ¬ RegImmutable baseWorld := by
   simp [baseWorld, baseHeap, shr] at ho
   subst ho
   cases hf
+
+/-- … and with the old NewModule it is not acceptable: `RegOK` is exactly what fix d8887ef established -/
+theorem regOK_legacy_witness : ¬ RegOK legacyBase := by
+  intro h
+  have := h { name := "os", globals := [("environ", .ref (shr 4)), ("sep", .str "/")], methods := ["getcwd"] }
+    (by simp [legacyBase, baseWorld, stdRegistry]) ("environ", .ref (shr 4)) (by simp)
+  rcases this with ⟨_, o, ho, hf⟩ | ⟨hs, _⟩
+  · simp [legacyBase, baseWorld, baseHeap, shr] at ho
+    subst ho
+    cases hf
+  · cases hs
+
+/-! ### what NewContext's replacement of sys.path / sys.argv is needed for -/
+
+/-- two contexts created without SysArgs / SysPaths; `shallow` = the NewModule before fix d8887ef,
+`rp` = whether NewContext performs its step `sys.path = fresh list` -/
+def bareWorld (shallow rp : Bool) : World :=
+  [0, 1].foldl (fun w c => newContextG true rp w c [] []) { baseWorld with shallowGlobals := shallow }
+
+def pathLeakSteps : List (Nat × Op) := [
+  (0, .imp "sys"), (1, .imp "sys"),
+  (0, .append (P "sys" [.attr "path"]) (.str "/leak")), (1, .obs (P "sys" [.attr "path"]))]
+
+/-- `r` is held directly by a module (or the builtins) of context `c` -/
+def holds1 (w : World) (c : Nat) (r : Ref) : Bool :=
+  match w.stores c with
+  | some s => s.roots.any fun m => match w.heap m with
+    | some o => o.vals.contains (.ref r)
+    | Option.none => false
+  | Option.none => false
+
+theorem reach_of_holds1 {w : World} {c : Nat} {r : Ref} (h : holds1 w c r = true) : Reach w c r := by
+  unfold holds1 at h
+  split at h
+  next s hs =>
+    obtain ⟨m, hm, hmo⟩ := List.any_eq_true.mp h
+    split at hmo
+    next o ho => exact Reach.step (Reach.root hs hm) ho (by simpa using hmo)
+    · cases hmo
+  · cases h
+
+/-- **The seeded change, in the code before fix d8887ef.**  With a NewModule that copies Globals one level
+deep, omitting the step `sys.path = fresh list` (what `if len(opts.SysPaths) > 0` does for contexts created
+without SysPaths) leaves the `sys` implementation's own `path` list in every such context: the world is
+not disjoint (the list is reachable from both contexts, and from the registry), the walk reports it, and
+context 1 sees what context 0 appended. -/
+theorem sys_replace_needed_witness :
+    ¬ Disjoint (bareWorld true false) ∧ ¬ DisjointR (bareWorld true false) ∧
+    walkResult (bareWorld true false) 2 = ("shared", "sys.path") ∧
+    traceOf 1 (runSteps (bareWorld true false) pathLeakSteps).2 = ["ok", "['/leak']"] ∧
+    soloTrace (bareWorld true false) 1 pathLeakSteps = ["ok", "[]"] := by
+  have hnd : ¬ Disjoint (bareWorld true false) := by
+    intro h
+    obtain ⟨o, ho, hf⟩ := h 0 1 (shr 6) (by decide) (reach_of_holds1 (by decide)) (reach_of_holds1 (by decide))
+    have : ((bareWorld true false).heap (shr 6)).map (·.frozen) = some false := by decide
+    rw [ho] at this
+    simp only [Option.map_some, Option.some.injEq] at this
+    rw [hf] at this; cases this
+  exact ⟨hnd, fun h => hnd h.1, by decide, by decide, by decide⟩
+
+/-- with the step performed the same world is disjoint and isolated even with the old NewModule … -/
+theorem sys_replace_done :
+    walkResult (bareWorld true true) 2 = ("disjoint", "") ∧
+    traceOf 1 (runSteps (bareWorld true true) pathLeakSteps).2 = ["ok", "[]"] := by decide
+
+/-- … and with the NewModule of the tree the step is no longer what isolation rests on: every instance of
+`sys` starts with its own copy of the implementation's lists (the general statement is
+`newcontextG_confined`, for every registry; here the computed instance).  Since d8887ef the seeded change
+is behaviour-preserving. -/
+theorem sys_replace_unneeded_after_fix :
+    walkResult (bareWorld false false) 2 = ("disjoint", "") ∧
+    traceOf 1 (runSteps (bareWorld false false) pathLeakSteps).2 = ["ok", "[]"] ∧
+    soloTrace (bareWorld false false) 1 pathLeakSteps = ["ok", "[]"] := by decide
+
+/-- `newcontext_disjoint` for the variants of NewContext: over an acceptable registry (so: with the NewModule
+of the tree for the tree's registry) the contexts are disjoint whether or not the replacement steps run -/
+theorem newcontextG_disjoint {w : World} (hc : Confined w) (hr : RegOK w) (ra rp : Bool) (c : Nat) (argv path : List String)
+    (steps : List (Nat × Op)) : DisjointR (runSteps (newContextG ra rp w c argv path) steps).1 :=
+  have h := newcontextG_confined hc hr ra rp c argv path
+  disjointR_preserved h.1 h.2 steps
+
+/-! ### why the premise is `Confined` and not the bare `Disjoint` (the converse direction) -/
+
+/-- two contexts of the tree; context 0 holds, as `z`, a writable list whose reference lies in the
+allocation namespace of context 1, exactly where context 1 allocates next.  Nothing is shared: the
+list is reachable from context 0 only. -/
+def mislabelled : World :=
+  let w := stdWorld 2
+  let z : Ref := ⟨.ctx 1, w.next 1⟩
+  match mainOf w 0 with
+  | some (m, mo) =>
+    { w with heap := fun r =>
+        if r = z then some { kind := .list, frozen := false }
+        else if r = m then some { mo with fields := setField "z" (.ref z) mo.fields }
+        else w.heap r }
+  | Option.none => w
+
+def mislabelledSteps : List (Nat × Op) :=
+  [(0, .append (P "z") (.int 1)), (1, .setName "x" .newList), (0, .obs (P "z"))]
+
+/-- **The converse of `confined_disjoint` fails in this model, and why.**  `mislabelled` passes the walk
+(no writable object is reachable from two roots) yet context 0 is not isolated: context 1's `x = []`
+allocates the reference context 0's list lives at.  References of the model are (namespace, serial) pairs
+and a context allocates from its own namespace – that is what makes an interleaved and a solo run
+comparable literally – so `Disjoint` has to be accompanied by "what a context reaches lies in its own
+namespace or is process-wide and frozen", which IS `Confined` (on the reachable part).  For the real
+heap, where addresses carry no namespace and allocation is always fresh, the converse (`Disjoint` ⇒ some
+labelling is confining) is true by labelling every object with the unique context that reaches it; stating
+it needs invariance of `step` under renaming of references, which is not proved here.  The check therefore
+uses the two directions that are available: `Confined → DisjointR` (proved) and `DisjointR` walked on
+the implementation after every scenario. -/
+theorem disjoint_alone_insufficient_witness :
+    walkResult mislabelled 2 = ("disjoint", "") ∧
+    traceOf 0 (runSteps mislabelled mislabelledSteps).2 = ["ok", "[]"] ∧
+    soloTrace mislabelled 0 mislabelledSteps = ["ok", "[1]"] := by decide
 
 /-- **Type dictionaries (fixed, d528452).**  Before the fix the dictionary of a built-in type was
 writable: in the same model with the `int` type object not frozen, `int.leak = 42` in context 0 is
@@ -364,7 +623,7 @@ def unfrozenInt : World :=
 def typeLeakSteps : List (Nat × Op) := [(0, .setAttr (P "int") "leak" (.int 42)), (1, .obs (P "int" [.attr "leak"]))]
 
 def unfrozenWorld : World :=
-  [(0, ["c8", "0"], ["/p0"]), (1, ["c8", "1"], ["/p1"])].foldl (fun w (x : Nat × List String × List String) => newContext w x.1 x.2.1 x.2.2) unfrozenInt
+  [(0, ["c8", "0"], ["/p0"]), (1, ["c8", "1"], ["/p1"])].foldl (fun w (x : CtxSpec) => newContext w x.1 x.2.1 x.2.2) unfrozenInt
 
 theorem writable_type_dict_witness :
     traceOf 1 (runSteps unfrozenWorld typeLeakSteps).2 = ["42"] ∧
